@@ -12,7 +12,10 @@ def wait(deferred):
         # 'a = a' or 'a = b' / 'b = a' settle on each other: that is a cycle
         # too, although no wait() call is ever nested inside another one.
         # (The objects are kept alive in 'seen' so that ids are not reused.)
-        if id(deferred) in seen:
+        # 'a = a + 1' produces a fresh polynomial in every round, with the
+        # same unknown still in it: no chain of definitions in a real program
+        # is anywhere near this long, so treat it as a cycle as well.
+        if id(deferred) in seen or len(seen) > 20000:
             raise DeferredCycle()
         seen[id(deferred)] = deferred
         deferred = deferred.wait()
